@@ -746,6 +746,45 @@ def _const_leaf(dom):
     return ("ten", (), tuple(shape), dt, tuple([0] * n), False)
 
 
+def is_bool_data(node):
+    """Does this expression produce numpy-bool data (needed by invert/and/or/xor)?"""
+    k = node[0]
+    if k == "ten":
+        return bool(len(node) > 5 and node[5])
+    if k == "bin":
+        if node[1] in COMPARISONS:
+            # a comparison of two Python scalars yields a Number, whose invert is bitwise by design
+            return node[2][0] == "ten" or node[3][0] == "ten"
+        if node[1] in LOGICAL:
+            return is_bool_data(node[2]) and is_bool_data(node[3])
+        return False
+    if k == "un":
+        return node[1] == "invert" and is_bool_data(node[2])
+    if k == "red":
+        return node[1] in ("and", "or") and is_bool_data(node[2])
+    if k in ("sub", "align"):
+        return is_bool_data(node[1] if k == "sub" else node[2])
+    if k == "stack":
+        return all(is_bool_data(p) for p in node[2])
+    return False
+
+
+def in_generator_domain(root):
+    """Preconditions the generators guarantee and shrinking must preserve."""
+    for n in walk(root):
+        if n[0] == "un" and n[1] == "invert" and not is_bool_data(n[2]):
+            return False
+        if n[0] == "bin" and n[1] in LOGICAL and not (is_bool_data(n[2]) and is_bool_data(n[3])):
+            return False
+        if n[0] == "red" and n[1] in ("and", "or") and not is_bool_data(n[2]):
+            return False
+        if n[0] == "getitem" and is_bool_data(n[3]):
+            return False
+        if n[0] == "sub" and any(v[0] in KINDS and is_bool_data(v) for kk, v in n[2]):
+            return False
+    return True
+
+
 def ast_shrinks(root):
     """Smaller well-typed variants of `root`, most aggressive first."""
     out = []
@@ -782,4 +821,182 @@ def ast_shrinks(root):
             continue
         except Exception:
             continue
+        if not in_generator_domain(cand):
+            continue
         yield cand
+
+
+# --------------------------------------------------------------- alpha renaming (C05)
+def rename_free(node, old, new):
+    """Rename free occurrences of input name `old` to `new` (capture is the caller's business:
+    `new` must be globally fresh)."""
+    k = node[0]
+    R = lambda n: rename_free(n, old, new)  # noqa: E731
+    if k == "num":
+        return node
+    if k == "ten":
+        return ("ten", tuple((new if n == old else n, s) for n, s in node[1])) + node[2:]
+    if k == "var":
+        return ("var", new if node[1] == old else node[1], node[2])
+    if k == "slice":
+        return ("slice", new if node[1] == old else node[1]) + node[2:]
+    if k == "un":
+        return ("un", node[1], R(node[2]))
+    if k == "unp":
+        return ("unp", node[1], node[2], R(node[3]))
+    if k == "bin":
+        return ("bin", node[1], R(node[2]), R(node[3]))
+    if k == "getitem":
+        return ("getitem", node[1], R(node[2]), R(node[3]))
+    if k == "red":
+        if any(n == old for n, s in node[3]):
+            return node
+        return ("red", node[1], R(node[2]), node[3])
+    if k == "sub":
+        inp = typeof(node[1])[0]
+        keys = [kk for kk, v in node[2] if kk in inp]
+        x = node[1] if old in keys else R(node[1])
+        subs = tuple((kk, rename_value(v, old, new)) for kk, v in node[2])
+        return ("sub", x, subs)
+    if k == "stack":
+        return ("stack", new if node[1] == old else node[1], tuple(R(p) for p in node[2]))
+    if k == "cat":
+        name, parts, pn = node[1], node[2], node[3]
+        parts2 = parts if old == pn else tuple(R(p) for p in parts)
+        return ("cat", new if name == old else name, parts2, pn)
+    if k == "lam":
+        if node[1] == old:
+            return node
+        return ("lam", node[1], node[2], R(node[3]))
+    if k == "indep":
+        _, x, rv, bv, dv = node
+        x2 = x if old in (bv, dv) else R(x)
+        return ("indep", x2, new if rv == old else rv, bv, dv)
+    if k == "einsum":
+        return ("einsum", node[1], tuple(R(x) for x in node[2]))
+    if k in ("fstack", "fcat"):
+        return (k, node[1], tuple(R(x) for x in node[2]))
+    if k == "align":
+        return ("align", tuple(new if n == old else n for n in node[1]), R(node[2]))
+    if k == "integrate":
+        if any(n == old for n, s in node[3]):
+            return node
+        return ("integrate", R(node[1]), R(node[2]), node[3])
+    if k == "approx":
+        return ("approx", node[1], R(node[2]), R(node[3]), tuple((new if n == old else n, s) for n, s in node[4]))
+    raise HarnessError(k)
+
+
+def rename_value(v, old, new):
+    if v[0] == "pynum":
+        return v
+    if v[0] == "pyname":
+        return ("pyname", new if v[1] == old else v[1])
+    return rename_free(v, old, new)
+
+
+def rename_binders(node, counter=None):
+    """Alpha-equivalent AST in which every binder uses a globally fresh name."""
+    if counter is None:
+        counter = [0]
+
+    def fresh(old):
+        counter[0] += 1
+        return f"{old}_r{counter[0]}"
+
+    A = lambda n: rename_binders(n, counter)  # noqa: E731
+    k = node[0]
+    if k in ("num", "ten", "var", "slice"):
+        return node
+    if k == "un":
+        return ("un", node[1], A(node[2]))
+    if k == "unp":
+        return ("unp", node[1], node[2], A(node[3]))
+    if k == "bin":
+        return ("bin", node[1], A(node[2]), A(node[3]))
+    if k == "getitem":
+        return ("getitem", node[1], A(node[2]), A(node[3]))
+    if k == "red":
+        x = A(node[2])
+        vs = []
+        for n, s in node[3]:
+            nn = fresh(n)
+            x = rename_free(x, n, nn)
+            vs.append((nn, s))
+        return ("red", node[1], x, tuple(vs))
+    if k == "sub":
+        x = A(node[1])
+        inp = typeof(node[1])[0]
+        subs = []
+        for kk, v in node[2]:
+            v2 = v if v[0] in ("pynum", "pyname") else A(v)
+            if kk in inp:
+                nn = fresh(kk)
+                x = rename_free(x, kk, nn)
+                subs.append((nn, v2))
+            else:
+                subs.append((kk, v2))
+        return ("sub", x, tuple(subs))
+    if k == "stack":
+        return ("stack", node[1], tuple(A(p) for p in node[2]))
+    if k == "cat":
+        name, parts, pn = node[1], node[2], node[3]
+        nn = fresh(pn)
+        return ("cat", name, tuple(rename_free(A(p), pn, nn) for p in parts), nn)
+    if k == "lam":
+        nn = fresh(node[1])
+        return ("lam", nn, node[2], rename_free(A(node[3]), node[1], nn))
+    if k == "indep":
+        _, x, rv, bv, dv = node
+        x = A(x)
+        nb, nd = fresh(bv), fresh(dv)
+        x = rename_free(rename_free(x, bv, nb), dv, nd)
+        return ("indep", x, rv, nb, nd)
+    if k == "einsum":
+        return ("einsum", node[1], tuple(A(x) for x in node[2]))
+    if k in ("fstack", "fcat"):
+        return (k, node[1], tuple(A(x) for x in node[2]))
+    if k == "align":
+        return ("align", node[1], A(node[2]))
+    if k == "integrate":
+        lm, ig = A(node[1]), A(node[2])
+        vs = []
+        for n, s in node[3]:
+            nn = fresh(n)
+            lm, ig = rename_free(lm, n, nn), rename_free(ig, n, nn)
+            vs.append((nn, s))
+        return ("integrate", lm, ig, tuple(vs))
+    if k == "approx":
+        return ("approx", node[1], A(node[2]), A(node[3]), node[4])
+    raise HarnessError(k)
+
+
+def binder_names(node):
+    """List (with multiplicity) of user-chosen bound names in the AST."""
+    out = []
+    for n in walk(node):
+        k = n[0]
+        if k == "red":
+            out += [x for x, s in n[3]]
+        elif k == "sub":
+            inp = typeof(n[1])[0]
+            out += [kk for kk, v in n[2] if kk in inp]
+        elif k == "cat":
+            out.append(n[3])
+        elif k == "lam":
+            out.append(n[1])
+        elif k == "indep":
+            out += [n[3], n[4]]
+        elif k == "integrate":
+            out += [x for x, s in n[3]]
+    return out
+
+
+def leaf_names(node):
+    out = set()
+    for n in walk(node):
+        if n[0] == "ten":
+            out |= {x for x, s in n[1]}
+        elif n[0] in ("var", "slice"):
+            out.add(n[1])
+    return out
